@@ -14,6 +14,7 @@ package main
 //	                            or the hash has no active pull (arrival / 5-minute expiry)
 //	announcer-not-recorded      an announcement beyond the cap for an item with an active pull is queued (with the pull's time)
 //	duplicate-deferred-request  never more deferred requests to (peer,hash) than deferred announcements of (peer,hash)
+//	active-pull-not-cleared     an arrival clears the hash's registered pull
 //	pending-unbounded / -unsorted / relay-mismatch / unexpected-output
 import (
 	"fmt"
@@ -136,6 +137,9 @@ func (o *c20oracle) observe(i int, e c20ev, out []c20out, before, after c20snap,
 		}
 	case "arr":
 		o.stored[e.H] = true
+		if _, still := after.Active[hashOf(e.H)]; still {
+			set(fail("active-pull-not-cleared", "the item arrived but its pull is still registered as active"))
+		}
 	case "exp":
 		delete(o.stored, e.H)
 	case "fgt":
